@@ -468,6 +468,44 @@ def rule_r9(chk, facts, P):
         raise AnalysisBroken('no comparison with MaxErrors found')
 
 
+def rule_r10(chk, facts, P):
+    chk.rule('C02-R10', 'JmpErrors (the number of questionable jump errors that -Y later subtracts from ErrorCount) only '
+             'counts diagnostics that are counted in ErrorCount as well: every path from an increment of JmpErrors to the '
+             'exit of its function passes the counting emitter WrErrorString() (or an increment of ErrorCount). An '
+             'increment ahead of the EXPECT / suppression filters makes "ErrorCount -= JmpErrors" cancel a genuine error '
+             'or wrap the counter', min_instances=1)
+    n = 0
+    for f in P.all_funcs():
+        if f.entry is None:
+            continue
+        for b, i, ln, m in f.nodes():
+            t = None
+            if is_incdec(m) and '++' in m[1]:
+                t = nocast(m[2])
+            elif is_assign(m) and m[1] == '+=':
+                t = nocast(m[2])
+            if t is None or not (t[0] in ('g', 'gs') and t[1] == 'JmpErrors'):
+                continue
+            n += 1
+
+            def through(ex):
+                for x in walk_own(ex):
+                    if x[0] == 'call' and callee_name(x) == 'WrErrorString':
+                        return True
+                    if (is_incdec(x) and '++' in x[1]) or (is_assign(x) and x[1] == '+='):
+                        tt = nocast(x[2])
+                        if tt[0] in ('g', 'gs') and tt[1] == 'ErrorCount':
+                            return True
+                return False
+            ok, w = f.must_pass(b, i, through)
+            chk.ob('C02-R10', '%s:%s:JmpErrors++' % (f.unit.name, f.name), ok, f.loc(ln),
+                   'the diagnostic is emitted and counted on every path after the increment' if ok else
+                   'after JmpErrors is incremented the function can return without emitting (and counting) the diagnostic '
+                   '(path %s): with -Y the later "ErrorCount -= JmpErrors" subtracts an error that was never counted'
+                   % ' '.join(str(x) for x in w[-6:]))
+    return n
+
+
 def run(chk, facts, info):
     P = facts.program('asl')
     rule_r8(chk, facts, P)
@@ -479,6 +517,7 @@ def run(chk, facts, info):
     rule_r5(chk, facts)
     rule_r6(chk, facts, P)
     rule_r7(chk, facts, P)
+    rule_r10(chk, facts, P)
     chk.note('Decided: counter discipline, counter width, single predicate for output removal / error flag / exit '
              'status, documented exit codes, fatal clean-up, routing of ERROR/WARNING/FATAL. Not decided: message text, '
              '-E routing.')
